@@ -4,7 +4,11 @@ import Srtla.Drv.Util
 Driver for the `reg` component (C07): the registration manager plus the shell arms that drive it.
 
 Ops (one output line each):
-* `init <n> <idseed>`            first op of a case: `n` uplinks, srtla id = `idBytes idseed`
+* `init <n> <idseed> [<born>]`   first op of a case: `n` uplinks, srtla id = `idBytes idseed`; with `born` the
+                                 harness builds the links as `connect_uplink` does at that time (natural state)
+* `nattick <now> <rcs>`          real `handle_housekeeping` on the links' natural state (no forcing); `rcs` must be
+                                 the links that then take the reconnect branch
+* `bindfail <idx> <0|1>`         harness-only: the uplink's socket binder fails / works (`reconnect_uplink` fails)
 * `probe_start <now>`            only directly after `init` (the shell calls `start_probing` once, first)
 * `pkt <idx> <now> <type4hex> <len> <seed>`   datagram `take len (type ++ idBytes seed ++ 40×ee)` on uplink idx
 * `hkpkt …`                      same arguments as `pkt`, but the harness calls the real `handle_uplink_packet`
@@ -115,14 +119,36 @@ def strictlyInc : List Nat → Bool
   | a :: b :: rest => a < b && strictlyInc (b :: rest)
   | _ => true
 
+def doInit (d : DState) (n seed : String) : DState × String :=
+  match n.toNat?, seed.toNat? with
+  | some n, some seed =>
+    if d.inited || n > 8 then (d, "bad-op") else
+    let s := Sys.init (idBytes seed) probeIdPlaceholder n
+    ({ inited := true, fresh := true, n := n, sys := s, established := List.replicate n false }, obs s [])
+  | _, _ => (d, "bad-op")
+
 def step (d : DState) (toks : List String) : DState × String :=
   match toks with
-  | ["init", n, seed] =>
-    match n.toNat?, seed.toNat? with
-    | some n, some seed =>
-      if d.inited || n > 8 then (d, "bad-op") else
-      let s := Sys.init (idBytes seed) probeIdPlaceholder n
-      ({ inited := true, fresh := true, n := n, sys := s, established := List.replicate n false }, obs s [])
+  | ["init", n, seed] => doInit d n seed
+  | ["init", n, seed, born] =>
+    -- natural link state on the harness side (links created at `born`); nothing changes for the manager
+    match born.toNat? with
+    | some _ => doInit d n seed
+    | none => (d, "bad-op")
+  | ["nattick", now, rcs] =>
+    -- REAL `handle_housekeeping` on the links' natural state; `rcs` = the links that reconnect
+    match now.toNat?, parseNatList rcs with
+    | some now, some rcs =>
+      if !d.inited || !allLt d.n rcs || !strictlyInc rcs then (d, "bad-op") else
+      let (s', out) := d.sys.run (tickEvs now rcs)
+      ({ d with sys := s', fresh := false },
+        "rx=" ++ showWire s'.reg.probeId d.n out ++ " " ++ showState s')
+    | _, _ => (d, "bad-op")
+  | ["bindfail", idx, flag] =>
+    -- harness-only: make the uplink's socket binder fail / work again (reconnect_uplink then fails)
+    match idx.toNat?, parseBool flag with
+    | some idx, some _ =>
+      if !d.inited || idx ≥ d.n then (d, "bad-op") else ({ d with fresh := false }, obs d.sys [])
     | _, _ => (d, "bad-op")
   | ["probe_start", now] =>
     match now.toNat? with
